@@ -54,16 +54,23 @@ Qed.
 (* a kept ordinary ancillary chunk is appended unchanged (name and payload) *)
 Theorem kept_is_recorded o st c : is_critical (c_name c) = false -> strip_keep (strip o) (c_name c) = true ->
   is_c2pa (c_name c) (c_data c) = false ->
+  cname_eqb (c_name c) name_acTL = false ->
   cname_eqb (c_name c) name_fcTL = false -> cname_eqb (c_name c) name_fdAT = false ->
   exists st', from_slice_step o st c = Ok st' /\ fs_aux st' = c :: fs_aux st /\ fs_idat st' = fs_idat st /\ fs_frames st' = fs_frames st.
 Proof.
-  unfold is_critical, from_slice_step. intros H Hk Hc H1 H2.
+  unfold is_critical, from_slice_step. intros H Hk Hc H0 H1 H2.
   destruct (cname_eqb (c_name c) name_IDAT); [cbn in H; rewrite ?orb_true_r in H; discriminate|].
   destruct (cname_eqb (c_name c) name_IHDR); [discriminate|].
   destruct (cname_eqb (c_name c) name_PLTE); [discriminate|].
   destruct (cname_eqb (c_name c) name_tRNS); [discriminate|].
-  rewrite Hk, Hc, H1, H2. cbn [orb]. eexists. split; [reflexivity|]. cbn. auto.
+  rewrite Hk, Hc, H0, H1, H2. cbn [orb andb]. eexists. split; [reflexivity|]. cbn. auto.
 Qed.
+
+Lemma cname_eqb_eq a b : cname_eqb a b = true -> a = b.
+Proof. apply list_eqb_Z_spec. Qed.
+
+Lemma c2pa_is_cabx n d : is_c2pa n d = true -> n = name_caBX.
+Proof. unfold is_c2pa. destruct (cname_eqb n name_caBX) eqn:E; [intros _; apply cname_eqb_eq; exact E|discriminate]. Qed.
 
 (* C2PA manifest: dropped under the default policy, an error under any other policy that keeps it *)
 Theorem c2pa_policy o st c : is_critical (c_name c) = false -> is_c2pa (c_name c) (c_data c) = true ->
@@ -71,11 +78,12 @@ Theorem c2pa_policy o st c : is_critical (c_name c) = false -> is_c2pa (c_name c
     if strip_keep (strip o) (c_name c) then (if strip_is_none (strip o) then Ok st else Err EC2PA) else Ok st.
 Proof.
   unfold is_critical, from_slice_step. intros H Hc.
+  pose proof (c2pa_is_cabx _ _ Hc) as Hn.
   destruct (cname_eqb (c_name c) name_IDAT); [cbn in H; rewrite ?orb_true_r in H; discriminate|].
   destruct (cname_eqb (c_name c) name_IHDR); [discriminate|].
   destruct (cname_eqb (c_name c) name_PLTE); [discriminate|].
   destruct (cname_eqb (c_name c) name_tRNS); [discriminate|].
-  rewrite Hc. reflexivity.
+  rewrite Hc. rewrite Hn. cbn [cname_eqb list_eqb name_caBX name_acTL name_fcTL name_fdAT Z.eqb Pos.eqb orb andb]. reflexivity.
 Qed.
 
 (* ---------------------------------------------------------------- postprocess_chunks *)
